@@ -635,6 +635,17 @@ static int parse_list(char *txt, int *out, int max)
 	return n;
 }
 
+/* the "last repair symbol is null" answer of a configured LDPC-Staircase session, asked again later in its life */
+static void emit_lastnull(dses_t *s, int sid)
+{
+	if (s->codec != 3 || !s->configured || !s->ses) return;
+	UINT32 v[2] = { 7, 7 };
+	LIB_ENTER(sid);
+	of_status_t st2 = of_get_control_parameter(s->ses, OF_CRTL_LDPC_STAIRCASE_IS_LAST_SYMBOL_NULL, v, sizeof(UINT32));
+	LIB_LEAVE();
+	jb_printf(",\"lastnull\":%d", st2 == OF_STATUS_OK ? (int)(v[0] != 0) : -1);
+}
+
 static void run_line(char *line)
 {
 	char *sv = NULL;
@@ -693,6 +704,7 @@ static void run_line(char *line)
 		of_status_t st = of_build_repair_symbol(s->ses, s->enc_tab, esi);
 		LIB_LEAVE();
 		jb_printf("{\"e\":\"Build\",\"x\":%ld,\"s\":%d,\"esi\":%u,\"slot\":\"%s\"", g_exec, sid, esi, nullslot ? "null" : "buf");
+		emit_lastnull(s, sid);
 		if (inrange && st == OF_STATUS_OK) {
 			void *p = s->enc_tab[esi];
 			const char *o = !p ? "null" : p == s->cw[esi] ? "app" : led_find(p) >= 0 ? "lib" : "wild";
@@ -766,6 +778,7 @@ static void run_line(char *line)
 		int c = of_is_decoding_complete(s->ses) ? 1 : 0;
 		LIB_LEAVE();
 		jb_printf("{\"e\":\"Complete\",\"x\":%ld,\"s\":%d,\"val\":%d", g_exec, sid, c);
+		emit_lastnull(s, sid);
 		emit_common(s, sid, 0); jb_printf("}\n"); jb_flush();
 	} else if (!strcmp(op, "gettab")) {
 		cmd_gettab(sid, 0);
